@@ -52,6 +52,12 @@ type Object struct {
 type Ptr struct{ Obj *Object }
 type pkgVar struct{ path, name string }
 
+// Closure is a function literal together with the frame it was created in.
+type Closure struct {
+	Lit *ast.FuncLit
+	fr  *frame
+}
+
 func NewBuffer(n int, fill func(i int) bitdom.Val) *Buffer {
 	b := &Buffer{B: make([]bitdom.Val, n)}
 	for i := range b.B {
@@ -96,6 +102,28 @@ type frame struct {
 	env     map[types.Object]Value
 	results []types.Object
 	fn      *ast.FuncDecl
+	ftype   *ast.FuncType
+	parent  *frame
+}
+
+func (fr *frame) lookup(o types.Object) (Value, bool) {
+	for f := fr; f != nil; f = f.parent {
+		if v, ok := f.env[o]; ok {
+			return v, true
+		}
+	}
+	return nil, false
+}
+
+// set assigns to the frame that already holds o (captured variables), else defines it locally.
+func (fr *frame) set(o types.Object, v Value) {
+	for f := fr; f != nil; f = f.parent {
+		if _, ok := f.env[o]; ok {
+			f.env[o] = v
+			return
+		}
+	}
+	fr.env[o] = v
 }
 
 type ctl int
@@ -141,7 +169,7 @@ func (m *Machine) Call(fn *types.Func, recv Value, args []Value) []Value {
 	if d == nil || d.Body == nil {
 		m.abort(nil, "no body for %s", fn.FullName())
 	}
-	fr := &frame{env: map[types.Object]Value{}, fn: d}
+	fr := &frame{env: map[types.Object]Value{}, fn: d, ftype: d.Type}
 	if d.Recv != nil && len(d.Recv.List) == 1 && len(d.Recv.List[0].Names) == 1 {
 		fr.env[m.Info.Defs[d.Recv.List[0].Names[0]]] = recv
 	}
@@ -309,9 +337,9 @@ func (m *Machine) stmt(fr *frame, s ast.Stmt) (ctl, []Value) {
 			}
 		}
 		// adapt to the declared result types
-		if fr.fn.Type.Results != nil {
+		if fr.ftype != nil && fr.ftype.Results != nil {
 			i := 0
-			for _, fl := range fr.fn.Type.Results.List {
+			for _, fl := range fr.ftype.Results.List {
 				n := len(fl.Names)
 				if n == 0 {
 					n = 1
@@ -456,7 +484,7 @@ func (m *Machine) bind(fr *frame, id *ast.Ident, v Value, tok token.Token) {
 		return
 	}
 	if o := m.Info.Uses[id]; o != nil {
-		fr.env[o] = m.coerce(v, o.Type())
+		fr.set(o, m.coerce(v, o.Type()))
 	}
 }
 
@@ -659,7 +687,7 @@ func (m *Machine) evalMulti(fr *frame, e ast.Expr) []Value {
 		if o == nil {
 			o = m.Info.Defs[x]
 		}
-		if v, ok := fr.env[o]; ok {
+		if v, ok := fr.lookup(o); ok {
 			return []Value{v}
 		}
 		if vr, ok := o.(*types.Var); ok && vr.Pkg() != nil && !vr.IsField() && vr.Parent() == vr.Pkg().Scope() {
@@ -780,6 +808,8 @@ func (m *Machine) evalMulti(fr *frame, e ast.Expr) []Value {
 		return []Value{Ptr{m.composite(fr, x)}} // struct values are handled through their address
 	case *ast.StarExpr:
 		return m.evalMulti(fr, x.X)
+	case *ast.FuncLit:
+		return []Value{Closure{Lit: x, fr: fr}}
 	}
 	m.abort(e, "expression %T is not modelled", e)
 	return nil
@@ -984,13 +1014,30 @@ func (m *Machine) call(fr *frame, c *ast.CallExpr) []Value {
 		}
 	}
 	if fn == nil {
+		// call of a function value (closure held in a variable or parameter)
+		if id, ok := c.Fun.(*ast.Ident); ok {
+			if o := m.Info.Uses[id]; o != nil {
+				if v, ok := fr.lookup(o); ok {
+					if cl, ok := v.(Closure); ok {
+						args := make([]Value, 0, len(c.Args))
+						for _, a := range c.Args {
+							args = append(args, m.eval(fr, a))
+						}
+						return m.callClosure(cl, args)
+					}
+				}
+			}
+		}
 		m.abort(c, "call of %s is not modelled", types.ExprString(c.Fun))
 	}
 	args := make([]Value, 0, len(c.Args))
 	for _, a := range c.Args {
 		args = append(args, m.eval(fr, a))
 	}
-	if fn.Pkg() == m.Pkg {
+	if fn.Origin() != nil {
+		fn = fn.Origin()
+	}
+	if m.Decls[fn] != nil {
 		var recv Value
 		if recvExpr != nil {
 			recv = m.eval(fr, recvExpr)
@@ -1004,6 +1051,15 @@ func (m *Machine) call(fr *frame, c *ast.CallExpr) []Value {
 	switch path + "." + fn.Name() {
 	case "fmt.Errorf", "errors.New":
 		return []Value{Err{Nil: false, Desc: "error"}}
+	case "slices.Clone", "bytes.Clone":
+		if b, ok := args[0].(Bytes); ok {
+			if b.Buf == nil {
+				return []Value{b}
+			}
+			nb := &Buffer{B: append([]bitdom.Val(nil), b.Buf.B[b.Off:b.Off+b.Len]...)}
+			return []Value{Bytes{Buf: nb, Len: b.Len, Cap: b.Len}}
+		}
+		m.abort(c, "Clone of %T is not modelled", args[0])
 	case "math.Float32bits", "math.Float64bits":
 		f, ok := args[0].(Float)
 		if !ok {
@@ -1129,6 +1185,10 @@ func (m *Machine) builtin(fr *frame, c *ast.CallExpr, name string) []Value {
 			return []Value{ConstInt(64, true, uint64(x.Len))}
 		case List:
 			return []Value{ConstInt(64, true, uint64(len(x.Elems)))}
+		case Err:
+			if x.Nil {
+				return []Value{ConstInt(64, true, 0)} // len / cap of a nil slice held in an untyped zero value
+			}
 		case Str:
 			return []Value{ConstInt(64, true, uint64(len(x.S)))}
 		}
@@ -1217,7 +1277,21 @@ func (m *Machine) builtin(fr *frame, c *ast.CallExpr, name string) []Value {
 	case "panic":
 		m.abort(c, "panic(…) is reachable")
 	case "min", "max":
-		m.abort(c, "%s is not modelled", name)
+		var best int64
+		for i, a := range c.Args {
+			v, ok := m.eval(fr, a).(Int)
+			if !ok {
+				m.abort(c, "%s of a non-integer", name)
+			}
+			k, ok := v.V.Int64()
+			if !ok {
+				m.abort(c, "%s of a value that is not constant on this partition", name)
+			}
+			if i == 0 || (name == "max" && k > best) || (name == "min" && k < best) {
+				best = k
+			}
+		}
+		return []Value{ConstInt(64, true, uint64(best))}
 	}
 	m.abort(c, "builtin %s is not modelled", name)
 	return nil
@@ -1225,3 +1299,64 @@ func (m *Machine) builtin(fr *frame, c *ast.CallExpr, name string) []Value {
 
 // BitLenConst is a helper for harnesses.
 func BitLenConst(x uint64) int { return bits.Len64(x) }
+
+func (m *Machine) callClosure(cl Closure, args []Value) []Value {
+	fr := &frame{env: map[types.Object]Value{}, parent: cl.fr, ftype: cl.Lit.Type}
+	i := 0
+	for _, fl := range cl.Lit.Type.Params.List {
+		for _, nm := range fl.Names {
+			if i < len(args) {
+				if o := m.Info.Defs[nm]; o != nil {
+					fr.env[o] = m.coerce(args[i], o.Type())
+				}
+			}
+			i++
+		}
+	}
+	if cl.Lit.Type.Results != nil {
+		for _, fl := range cl.Lit.Type.Results.List {
+			for _, nm := range fl.Names {
+				if o := m.Info.Defs[nm]; o != nil {
+					fr.env[o] = m.zero(o.Type())
+					fr.results = append(fr.results, o)
+				}
+			}
+		}
+	}
+	c, vals := m.block(fr, cl.Lit.Body.List)
+	if c == ctlReturn {
+		return vals
+	}
+	if cl.Lit.Type.Results == nil || len(cl.Lit.Type.Results.List) == 0 {
+		return nil
+	}
+	m.abort(cl.Lit, "function literal ends without return")
+	return nil
+}
+
+// MergeInfo returns a types.Info holding the maps of several packages (AST nodes are disjoint).
+func MergeInfo(infos ...*types.Info) *types.Info {
+	out := &types.Info{Types: map[ast.Expr]types.TypeAndValue{}, Defs: map[*ast.Ident]types.Object{}, Uses: map[*ast.Ident]types.Object{},
+		Selections: map[*ast.SelectorExpr]*types.Selection{}, Implicits: map[ast.Node]types.Object{}, Instances: map[*ast.Ident]types.Instance{}}
+	for _, in := range infos {
+		for k, v := range in.Types {
+			out.Types[k] = v
+		}
+		for k, v := range in.Defs {
+			out.Defs[k] = v
+		}
+		for k, v := range in.Uses {
+			out.Uses[k] = v
+		}
+		for k, v := range in.Selections {
+			out.Selections[k] = v
+		}
+		for k, v := range in.Implicits {
+			out.Implicits[k] = v
+		}
+		for k, v := range in.Instances {
+			out.Instances[k] = v
+		}
+	}
+	return out
+}
